@@ -34,8 +34,10 @@ LEVEL = 'exploration'
 TECHNIQUE = ("Hypothesis item sequences written by WRITE#/PRINT# in 1-3 OUTPUT/APPEND sessions and "
              "read back by INPUT#/LINE INPUT#; round trip + independent framing walk over the host "
              "file bytes + exact-rational value of the written number text")
-RULE = ("Item sequences: strings over all bytes except '\"', NUL, 0x1A (LF only with soft_linefeed; "
-        "CR in both configurations), lengths 0..255 boundary-weighted, with leading/trailing "
+RULE = ("Item sequences: strings over all bytes except '\"', NUL, 0x1A, in both newline "
+        "configurations, with a deliberately generated class of runs (length 1..4) of CR/LF "
+        "mixtures at the start, inside and at the end of strings and PRINT# text (labelled "
+        "ctl-run:<pattern>), lengths 0..255 boundary-weighted, with leading/trailing "
         "blanks, commas, control and high bytes; INTEGER/SINGLE/DOUBLE values incl. boundaries of "
         "the fixed/exponent notations; 1-4 items per WRITE#, INPUT# groups of 1-4 variables "
         "independent of the writing; PRINT# lines (any byte except CR/LF/0x1A; LF inside a line only "
@@ -43,8 +45,14 @@ RULE = ("Item sequences: strings over all bytes except '\"', NUL, 0x1A (LF only 
         "sequence contains a string of >= 254 bytes, a string with comma/CR/LF/leading or trailing "
         "blank, or uses APPEND. Distinct = distinct case hash.")
 ASSUMPTIONS = [
-    "default configuration: text input converts LF to CR (documented newline option), so LF is put "
-    "into strings/lines only with soft_linefeed=True",
+    "default configuration (soft_linefeed off): the expected read-back is the documented "
+    "translation of what was written (model translate(): CR LF reads as CR, an LF not preceded by "
+    "CR reads as CR): a quoted WRITE# string reads back translated, PRINT# text is cut into lines "
+    "at every line break, INPUT$ sees the translated byte stream; with soft_linefeed=True the "
+    "bytes read are the bytes written",
+    "INPUT$(n,#1) over the whole file (chunk sizes from the case; files up to 1500 bytes) is an "
+    "extra read-back of the same stream; C24's statement does not name INPUT$, the manual's "
+    "newline treatment is what is asserted",
     "soft_linefeed=True: a LINE INPUT# line may contain LF but not as its last byte (LF CR is a "
     "continuation in the reader, GW-BASIC compatible), and never CR",
     "numbers: the value read must lie within 1 ulp (of the variable's type) of the decimal value of "
@@ -74,7 +82,11 @@ REG_LINE255 = {'known': True, 'kind': 'print', 'soft': False, 'groups': [1],
 K_LEADCRLF = 'input.string.leading-crlf-in-quotes'
 REG_LEADCRLF = {'known': True, 'kind': 'write', 'soft': True, 'groups': [1],
                 'sessions': [{'mode': 'O', 'stmts': [[{'t': 's', 'v': '\r\n'}]]}]}
-_REG = {K_STR255: REG_STR255, K_LINE255: REG_LINE255, K_LEADCRLF: REG_LEADCRLF}
+K_CHUNKCRLF = 'inputstr.crlf-inside-chunk'
+REG_CHUNKCRLF = {'known': True, 'kind': 'print', 'soft': False, 'groups': [1], 'chunks': [5],
+                 'sessions': [{'mode': 'O', 'stmts': [[{'t': 's', 'v': 'ab'}], [{'t': 's', 'v': 'cd'}]]}]}
+_REG = {K_STR255: REG_STR255, K_LINE255: REG_LINE255, K_LEADCRLF: REG_LEADCRLF,
+        K_CHUNKCRLF: REG_CHUNKCRLF}
 _PRESENT = {}
 
 
@@ -87,6 +99,8 @@ def defect_present(key):
     return bool(_PRESENT[key])
 
 
+import re
+CTL_RUN = re.compile(b'[\r\n]+')
 SUFFIX = {'s': '$', '%': '%', '!': '!', '#': '#'}
 NBYTES = {'%': 2, '!': 4, '#': 8}
 MKFN = {'%': 'MKI$', '!': 'MKS$', '#': 'MKD$'}
@@ -127,13 +141,32 @@ def single_like(text):
     return len(mant) <= 7
 
 
+def translate(b):
+    """
+    The documented treatment of line breaks when a text file is read in the default configuration
+    (soft_linefeed off: "PC-BASIC will accept both DOS and Unix newline conventions"): CR LF is one
+    line break and reads as CR, an LF that does not follow a CR is a line break too and reads as CR;
+    everything else is unchanged. Written as a plain left-to-right scan over the raw bytes.
+    """
+    out = bytearray()
+    prev = None
+    for c in b:
+        if c == 10:
+            if prev != 13:
+                out.append(13)
+        else:
+            out.append(c)
+        prev = c
+    return bytes(out)
+
+
 def clean_string(v, soft, kind):
     """Make a generated string a valid member of the input domain."""
     b = v.encode('latin-1')[:255]
-    drop = b'\x1a' + (b'' if soft else b'\n')
+    drop = b'\x1a'
     if kind == 'write':
         drop += b'"\x00'
-    else:
+    elif soft:
         drop += b'\r'
     b = bytes(c for c in b if c not in drop)
     if kind == 'print' and soft:
@@ -379,11 +412,19 @@ class Run(object):
         return texts
 
     def read_back(self, raw, content, texts):
+        # what must be read: with soft_linefeed the bytes as written; in the default configuration
+        # their documented translation (translate()): inside a quoted WRITE# string every line
+        # break reads as one CR; PRINT# text is cut into lines at every line break
         if self.kind == 'print':
-            flat = [('s', b''.join(v for _, v in items)) for items in content]
+            lines = [b''.join(v for _, v in items) for items in content]
+            if not self.soft:
+                text = translate(b''.join(ln + b'\r\n' for ln in lines))
+                lines = text.split(b'\r')[:-1]
+            flat = [('s', ln) for ln in lines]
             texts = [None] * len(flat)
         else:
-            flat = [it for items in content for it in items]
+            flat = [(t, v if (t != 's' or self.soft) else translate(v))
+                    for items in content for t, v in items]
         o = self.ex('OPEN "%s" FOR INPUT AS #1' % FNAME, 'open-input')
         if o is None:
             return
@@ -434,7 +475,9 @@ class Run(object):
                                 pos + i, _short(got), _short(v)))
                             return
                         self.fail(key('lineinput.line' if self.kind == 'print' else 'input.string'),
-                                  'item %d: read %r, written %r' % (pos + i, _short(got), _short(v)))
+                                  'item %d: read %r, expected %r (%s)' % (
+                                      pos + i, _short(got), _short(v), 'as written' if self.soft
+                                      else 'what was written, line breaks read as CR'))
                         return
                     if len(v) == 255:
                         seen255 = True
@@ -476,6 +519,44 @@ class Run(object):
         check_lof('at end')
         self.ex('CLOSE #1')
 
+    def read_chunks(self, raw):
+        """Read the whole file with INPUT$(n,#1) in chunks: the same (translated) byte stream."""
+        chunks = [max(1, min(255, int(c))) for c in (self.case.get('chunks') or [])]
+        body = raw[:-1]
+        if not chunks or len(body) > 1500:
+            return
+        want = body if self.soft else translate(body)
+        region = (not self.soft) and b'\r\n' in body and max(chunks) > 1
+        if region and not self.known and defect_present(K_CHUNKCRLF):
+            chunks = [1]
+            self.res.excluded += 1
+            self.res.label('excluded:' + K_CHUNKCRLF)
+        o = self.ex('OPEN "%s" FOR INPUT AS #1' % FNAME, 'open-input')
+        if o is None or o.errors:
+            return
+        self.res.label('read:input$-chunks' + ('' if max(chunks) > 1 else '-bytewise'))
+        got, ci = b'', 0
+        while len(got) < len(want):
+            n = min(chunks[ci % len(chunks)], len(want) - len(got))
+            ci += 1
+            piece = self.ev('INPUT$(%d,#1)' % n)
+            if piece is None:
+                return
+            got += piece
+            if got != want[:len(got)]:
+                break
+        if got != want:
+            d = next((i for i in range(min(len(got), len(want))) if got[i] != want[i]),
+                     min(len(got), len(want)))
+            self.fail(K_CHUNKCRLF if region else 'inputstr.stream',
+                      'INPUT$ chunks %r: stream differs at byte %d: read %r, expected %r' % (
+                          chunks[:6], d, got[max(0, d - 6):d + 8], want[max(0, d - 6):d + 8]))
+            return
+        eof = self.ev('EOF(1)')
+        if eof is not None and eof != -1:
+            self.fail('eof.late', 'EOF(1) = %r after INPUT$ consumed the whole file' % eof)
+        self.ex('CLOSE #1')
+
     def run(self):
         sessions = self.prepare()
         kwargs = {'soft_linefeed': True} if self.soft else {}
@@ -497,6 +578,15 @@ class Run(object):
                             self.res.label('string:separator-bytes')
                         if not v:
                             self.res.label('string:empty')
+                        for mt in CTL_RUN.finditer(v):
+                            run = mt.group().replace(b'\r', b'C').replace(b'\n', b'L').decode()
+                            self.res.label('ctl-run:%s%s' % (
+                                run if len(run) <= 4 else 'len>4',
+                                ':soft' if self.soft else ''))
+                            if len(run) >= 2:
+                                self.res.label('ctl-run>=2@' + (
+                                    'start' if mt.start() == 0 else
+                                    'end' if mt.end() == len(v) else 'inside'))
                     else:
                         self.res.label('number:' + t)
             self.res.label('kind:' + self.kind + (':soft' if self.soft else ''))
@@ -506,6 +596,8 @@ class Run(object):
             if texts is None:
                 return
             self.read_back(raw, content, texts)
+            if not self.stop and not self.res.fails:
+                self.read_chunks(raw)
             extra = sorted(set(os.listdir(s.sandbox.z)) - {FNAME})
             if extra:
                 self.fail('host.extra-files', repr(extra))
@@ -544,8 +636,16 @@ def strat_string():
                       st.sampled_from(['x', 'ab', ' ', ',', 'q\xe9', 'z\r']),
                       st.sampled_from(['', '', ' ', ',', 'end']))
     mid = st.text(alphabet=anybyte, min_size=60, max_size=200)
+    # runs (length 1..4) of CR/LF mixtures at the start, inside and at the end of a string
+    run = st.text(alphabet=st.sampled_from('\n\n\r'), min_size=1, max_size=4)
+    bit = st.text(alphabet=st.sampled_from('ab ,x;'), max_size=5)
+    ctl = st.builds(
+        lambda shape, a, r1, b, r2, c: {
+            0: r1 + b, 1: a + r1, 2: (a or 'a') + r1 + (b or 'b'), 3: a + r1 + (b or 'b') + r2 + c,
+            4: r1, 5: r1 + (b or 'b') + r2}[shape],
+        st.integers(0, 5), bit, run, bit, run, bit)
     return weighted((short, 6), (padded, 4), (numberlike, 1), (long_, 2), (mid, 1),
-                    (st.just(''), 1))
+                    (st.just(''), 1), (ctl, 5))
 
 
 def strat_item():
@@ -592,14 +692,18 @@ def strat_case(maxstmts):
                           st.sampled_from(['A', 'A', 'A', 'O']), stmts)
         return st.builds(lambda a, b: [a] + b, first, st.lists(later, max_size=2))
 
-    def build(kind, soft, sess, groups, old):
-        return {'kind': kind, 'soft': soft, 'sessions': sess, 'groups': groups, 'oldsyntax': old}
+    def build(kind, soft, sess, groups, old, chunks):
+        return {'kind': kind, 'soft': soft, 'sessions': sess, 'groups': groups, 'oldsyntax': old,
+                'chunks': chunks}
+
+    chunks = st.one_of(st.none(), st.lists(st.sampled_from([1, 1, 2, 3, 5, 7, 16, 64, 255]),
+                                           min_size=1, max_size=4))
 
     return st.sampled_from(['write', 'write', 'write', 'print']).flatmap(
         lambda kind: st.builds(build, st.just(kind), st.sampled_from([False, False, True]),
                                sessions(kind),
                                st.lists(st.integers(1, 4), min_size=1, max_size=4),
-                               st.booleans()))
+                               st.booleans(), chunks))
 
 
 def units(tier):
@@ -637,6 +741,26 @@ REGRESSIONS = [
         {'mode': 'A', 'stmts': [[{'t': 's', 'v': 'last'}]]}]},
     {'kind': 'print', 'soft': True, 'groups': [1], 'sessions': [
         {'mode': 'O', 'stmts': [[{'t': 's', 'v': 'a\nb'}], [{'t': 's', 'v': '\nc'}]]}]},
+    # open finding: default configuration, INPUT$(n,#1) with n > 1 turns a CR LF that lies inside
+    # one chunk into CR CR (byte-wise reads, INPUT# and LINE INPUT# fold it into one CR)
+    REG_CHUNKCRLF,
+    # runs of CR/LF mixtures in the default configuration (reviewer's wave-5 seed: LF LF lost a
+    # character) and with soft_linefeed; read back by INPUT#, LINE INPUT# and INPUT$
+    {'kind': 'write', 'soft': False, 'groups': [2, 1], 'chunks': [1], 'sessions': [
+        {'mode': 'O', 'stmts': [
+            [{'t': 's', 'v': 'gap\n\ngap'}, {'t': '%', 'v': 7}],
+            [{'t': 's', 'v': '\n\n'}, {'t': 's', 'v': 'x\n\n\ny,z'}, {'t': 's', 'v': '\nstart'}],
+            [{'t': 's', 'v': 'end\n'}, {'t': 's', 'v': 'a\r\n\nb'}, {'t': 's', 'v': '\n\r\n'}],
+            [{'t': 's', 'v': 'c\r\rd'}, {'t': 's', 'v': '\n\n\r'}, {'t': '!', 'v': 2.5}]]},
+        {'mode': 'A', 'stmts': [[{'t': 's', 'v': 'l\n\r\nm\r'}]]}]},
+    {'kind': 'print', 'soft': False, 'groups': [1], 'chunks': [1], 'sessions': [
+        {'mode': 'O', 'stmts': [[{'t': 's', 'v': 'gap\n\ngap'}], [{'t': 's', 'v': '\n'}],
+                                [{'t': 's', 'v': 'a\rb\r\nc\n\rd'}], [{'t': 's', 'v': 'e\n'}]]}]},
+    {'kind': 'write', 'soft': True, 'groups': [1], 'chunks': [3, 255], 'sessions': [
+        {'mode': 'O', 'stmts': [[{'t': 's', 'v': 'gap\n\ngap'}], [{'t': 's', 'v': '\n\n\r\n'}],
+                                [{'t': 's', 'v': '\r\ra\n\r'}]]}]},
+    {'kind': 'print', 'soft': True, 'groups': [1], 'chunks': [2], 'sessions': [
+        {'mode': 'O', 'stmts': [[{'t': 's', 'v': 'gap\n\ngap'}], [{'t': 's', 'v': '\n\nx'}]]}]},
     # LOF inside OUTPUT and APPEND sessions counts the bytes still in the write buffer (reviewer's
     # seeded change: fstat instead of seek) - before/after the 128-byte and 8192-byte marks
     {'kind': 'write', 'soft': False, 'groups': [4], 'sessions': [
